@@ -51,6 +51,15 @@ VARIANTS = [
     # listed order and one accumulated in the stored order differ in the last bit
     ('s_trunk_last', {'area': 8, 'rectangles': [[4.1, 2, 1, 2], [1.1, 2, 1, 2], [2.6, 2, 2, 2]]}),
     ('h_trunk_last', {'hard': True, 'rectangles': [[4.1, 2, 1, 2], [1.1, 2, 1, 2], [2.6, 2, 2, 2]]}),
+    # ... with sizes written partly as ints and partly as decimals (the area sum depends on the order of accumulation)
+    ('s_tl_mixed', {'area': 27.3, 'rectangles': [[1.0, 5.35, 2, 0.7], [5.15, 1.5, 0.3, 3], [2.5, 2.5, 5, 5]]}),
+    ('h_tl_mixed', {'hard': True, 'rectangles': [[1.0, 5.35, 2, 0.7], [5.15, 1.5, 0.3, 3], [2.5, 2.5, 5, 5]]}),
+    # a centre at the origin (a null vector is still a centre)
+    ('s_ctr0', {'area': 2, 'center': [0, 0]}),
+    ('t_ctr0', {'terminal': True, 'center': [0.0, 0]}),
+    # aspect ratios whose reciprocal is not exactly invertible: 1/(1/0.45) != 0.45 in binary floating point
+    ('s_ar_045', {'area': 4, 'aspect_ratio': 0.45}),
+    ('s_ar_022i', {'area': 4, 'aspect_ratio': [0.22, 4.545454545454546]}),
 ]
 VIDX = {n: i for i, (n, _) in enumerate(VARIANTS)}
 WEIGHTS = [None, 1, 2, 0.5]
